@@ -57,6 +57,15 @@ type c06Vec struct {
 	Jar         [][2]string `json:"jar"`
 	Ref         [][2]string `json:"ref"`
 	Oct         [][2]string `json:"oct"` // the cookie-octet cookies of the jar, in order
+	Early       bool        `json:"early"` // SameSite/Partitioned are set BEFORE the other attributes
+	RWire       string      `json:"rwire"` // the reference rendering with the attributes in reverse order
+	Steps       []c06Prefix `json:"steps"` // request side: expectations after each SetCookie call
+}
+
+type c06Prefix struct {
+	Jar    [][2]string `json:"jar"`
+	Oct    [][2]string `json:"oct"`
+	Octets bool        `json:"octets"`
 }
 
 var c06T1 = time.Date(2031, time.May, 17, 13, 4, 59, 123456789, time.UTC)
@@ -65,8 +74,14 @@ func c06S(s string) string {
 	return strings.NewReplacer("^", "\r", "$", "\n").Replace(s)
 }
 
+// c06Build builds the cookie through the setters, in one of the two orders the
+// specification distinguishes (SameSite(None) and Partitioned also set Secure / Path).
 func c06Build(v *c06Vec, variant int) *Cookie {
 	c := &Cookie{}
+	if v.Early {
+		c.SetSameSite(CookieSameSite(v.SameSite))
+		c.SetPartitioned(v.Partitioned)
+	}
 	if variant&1 == 0 {
 		c.SetKey(c06S(v.Key))
 		c.SetValue(c06S(v.Value))
@@ -91,14 +106,20 @@ func c06Build(v *c06Vec, variant int) *Cookie {
 	c.SetMaxAge(v.MaxAge)
 	c.SetSecure(v.Secure)
 	c.SetHTTPOnly(v.HTTPOnly)
-	c.SetSameSite(CookieSameSite(v.SameSite))
-	c.SetPartitioned(v.Partitioned)
+	if !v.Early {
+		c.SetSameSite(CookieSameSite(v.SameSite))
+		c.SetPartitioned(v.Partitioned)
+	}
 	return c
 }
 
 func c06RespKey(v *c06Vec) string {
-	return fmt.Sprintf("resp:key=%q,value=%q,domain=%q,path=%q,expire=%s,maxAge=%d,secure=%v,httpOnly=%v,sameSite=%d,partitioned=%v",
-		c06S(v.Key), c06S(v.Value), c06S(v.Domain), c06S(v.Path), v.Expire, v.MaxAge, v.Secure, v.HTTPOnly, v.SameSite, v.Partitioned)
+	order := "strings-first"
+	if v.Early {
+		order = "samesite/partitioned-first"
+	}
+	return fmt.Sprintf("resp:key=%q,value=%q,domain=%q,path=%q,expire=%s,maxAge=%d,secure=%v,httpOnly=%v,sameSite=%d,partitioned=%v,%s",
+		c06S(v.Key), c06S(v.Value), c06S(v.Domain), c06S(v.Path), v.Expire, v.MaxAge, v.Secure, v.HTTPOnly, v.SameSite, v.Partitioned, order)
 }
 
 // c06CheckParsed compares a parsed Set-Cookie value with the vector's expectations.
@@ -162,6 +183,39 @@ func c06CheckParsed(v *c06Vec, wire []byte, via string) string {
 	return ""
 }
 
+// c06RWire turns the reference's reverse-order rendering into bytes (dates are tokens).
+func c06RWire(v *c06Vec) []byte {
+	if v.RWire == "" {
+		return nil
+	}
+	r := strings.NewReplacer(
+		"DATE:t1", string(AppendHTTPDate(nil, c06T1)),
+		"DATE:del", string(AppendHTTPDate(nil, CookieExpireDelete)))
+	return []byte(r.Replace(v.RWire))
+}
+
+// c06SamePieces reports whether two Set-Cookie values consist of the same "; "-separated
+// pieces, the first one in place.
+func c06SamePieces(a, b []byte) bool {
+	pa, pb := strings.Split(string(a), "; "), strings.Split(string(b), "; ")
+	if len(pa) != len(pb) || pa[0] != pb[0] {
+		return false
+	}
+	cnt := map[string]int{}
+	for _, x := range pa[1:] {
+		cnt[x]++
+	}
+	for _, x := range pb[1:] {
+		cnt[x]--
+	}
+	for _, n := range cnt {
+		if n != 0 {
+			return false
+		}
+	}
+	return true
+}
+
 func c06Resp(v *c06Vec, n int) {
 	c := c06Build(v, n)
 	wire := append([]byte(nil), c.Cookie()...)
@@ -172,6 +226,15 @@ func c06Resp(v *c06Vec, n int) {
 	if m := c06CheckParsed(v, wire, "Cookie.Cookie()"); m != "" {
 		vfViol("c06:"+c06RespKey(v), m, vfRec{"vec": v, "wire": string(wire)})
 		return
+	}
+	// the same cookie with its attributes in the opposite order (the reference's rendering;
+	// only when the real serialisation agrees with the reference on the set of pieces, so
+	// that this is "the header fasthttp produced, attributes reordered")
+	if rw := c06RWire(v); rw != nil && c06SamePieces(wire, rw) {
+		if m := c06CheckParsed(v, rw, "attributes in reverse order"); m != "" {
+			vfViol("c06:"+c06RespKey(v)+":reversed", m, vfRec{"vec": v, "wire": string(rw)})
+			return
+		}
 	}
 	// through a response header: SetCookie, Write, Read, list cookies
 	var h ResponseHeader
@@ -207,11 +270,15 @@ func c06ReqKey(v *c06Vec) string {
 	return sb.String()
 }
 
-// c06ReqWire builds the request header through the API and returns its wire image.
+// c06ReqWire builds the request header through the API, one SetCookie call at a time; after
+// EACH call the header is serialised, read back into a fresh RequestHeader and the cookies
+// seen are judged against the jar the specification gives for that prefix. It returns the
+// wire image after the last call (nil when a step already failed).
 func c06ReqWire(v *c06Vec, n int) []byte {
 	var h RequestHeader
 	h.SetRequestURI("/")
 	h.SetHost("example.com")
+	var wire []byte
 	for i, o := range v.Ops {
 		k, val := c06S(o[0]), c06S(o[1])
 		switch (n + i) % 3 {
@@ -222,8 +289,22 @@ func c06ReqWire(v *c06Vec, n int) []byte {
 		default:
 			h.SetCookieBytesKV([]byte(k), []byte(val))
 		}
+		wire = append([]byte(nil), h.Header()...)
+		if i < len(v.Steps) && i < len(v.Ops)-1 {
+			var h2 RequestHeader
+			if err := h2.Read(bufio.NewReader(bytes.NewReader(wire))); err != nil {
+				if v.Steps[i].Octets {
+					vfViol("c06:"+c06ReqKey(v), fmt.Sprintf("request %q (after call %d) is not readable: %v", wire, i+1, err), vfRec{"vec": v})
+					return nil
+				}
+				continue
+			}
+			if !c06JudgeStep(v, i+1, &v.Steps[i], c06Cookies(&h2), wire, "fresh header") {
+				return nil
+			}
+		}
 	}
-	return append([]byte(nil), h.Header()...)
+	return wire
 }
 
 func c06IsSubseq(a, b [][2]string) bool {
@@ -237,37 +318,46 @@ func c06IsSubseq(a, b [][2]string) bool {
 }
 
 // c06Judge compares the cookies a server-side view lists with the vector's jar.
-func c06Judge(v *c06Vec, seen [][2]string, wire []byte, via string) {
+func c06Judge(v *c06Vec, seen [][2]string, wire []byte, via string) bool {
+	return c06JudgeStep(v, len(v.Ops), &c06Prefix{Jar: v.Jar, Oct: v.Oct, Octets: v.Octets}, seen, wire, via)
+}
+
+// c06JudgeStep judges what the server sees after the first nops calls of the sequence.
+func c06JudgeStep(v *c06Vec, nops int, p *c06Prefix, seen [][2]string, wire []byte, via string) bool {
 	var jar, oct [][2]string
-	for _, e := range v.Jar {
+	for _, e := range p.Jar {
 		jar = append(jar, [2]string{c06S(e[0]), c06S(e[1])})
 	}
-	for _, e := range v.Oct {
+	for _, e := range p.Oct {
 		oct = append(oct, [2]string{c06S(e[0]), c06S(e[1])})
 	}
-	key := "c06:" + c06ReqKey(v)
+	pv := *v
+	pv.Ops = v.Ops[:nops]
+	key := "c06:" + c06ReqKey(&pv)
 	if via != "fresh header" {
 		key += ":" + via
 	}
 	if len(seen) > len(jar) {
 		vfViol(key, fmt.Sprintf("%s: %d cookie(s) were set, the server sees %d: %q (request %q)", via, len(jar), len(seen), seen, wire),
 			vfRec{"vec": v, "seen": seen, "wire": string(wire), "via": via})
-		return
+		return false
 	}
 	if !c06IsSubseq(oct, seen) {
 		vfViol(key, fmt.Sprintf("%s: the cookie-octet cookies %q were set, the server sees %q (request %q)", via, oct, seen, wire),
 			vfRec{"vec": v, "seen": seen, "wire": string(wire), "via": via})
-		return
+		return false
 	}
-	if v.Octets {
+	if p.Octets {
 		ok := len(seen) == len(jar)
 		for i := 0; ok && i < len(seen); i++ {
 			ok = seen[i] == jar[i]
 		}
 		if !ok {
 			vfViol(key, fmt.Sprintf("%s: cookie-octet cookies %q are seen by the server as %q", via, jar, seen), vfRec{"vec": v, "seen": seen, "via": via})
+			return false
 		}
 	}
+	return true
 }
 
 func c06Cookies(h *RequestHeader) [][2]string {
@@ -283,6 +373,9 @@ func c06Cookies(h *RequestHeader) [][2]string {
 // requests of a keep-alive connection): the cookies seen must not depend on that.
 func c06Req(v *c06Vec, n int, reused *RequestHeader) []byte {
 	wire := c06ReqWire(v, n)
+	if wire == nil {
+		return nil
+	}
 	var h2 RequestHeader
 	if err := h2.Read(bufio.NewReader(bytes.NewReader(wire))); err != nil {
 		if v.Octets {
